@@ -199,21 +199,32 @@ def _arrays(case, structs):
     return [np.array(s, dtype=dt).reshape(len(s), d) for s in structs]
 
 
-def run_impl(case):
+def run_impl(case, arrays=None, raw=None):
+    """One call of the public function.  [arrays] = (train list, test list) to pass these very
+    objects (call-sequence family); [raw], a list, receives the returned ndarray objects."""
     from skmatter.metrics import componentwise_prediction_rigidity, local_prediction_rigidity
-    tr, te = _arrays(case, case["train"]), _arrays(case, case["test"])
+    if arrays is None:
+        tr, te = _arrays(case, case["train"]), _arrays(case, case["test"])
+    else:
+        tr, te = arrays
     tr0, te0 = [a.copy() for a in tr], [a.copy() for a in te]
     try:
         with np.errstate(all="ignore"), _Recorder() as rc:
             if case["kind"] == "lpr":
                 lpr, rd = local_prediction_rigidity(tr, te, case["alpha"])
                 out = dict(lpr=[[float(x) for x in a] for a in lpr], rank_diff=int(rd))
+                if raw is not None:
+                    raw.append(list(lpr))
             else:
                 cpr, lcpr, rd = componentwise_prediction_rigidity(tr, te, case["alpha"],
                                                                   np.array(case["comp_dims"]))
                 out = dict(cpr=[[float(x) for x in r] for r in cpr],
                            lcpr=[[[float(x) for x in r] for r in a] for a in lcpr], rank_diff=int(rd))
+                if raw is not None:
+                    raw.append([cpr] + list(lcpr))
     except Exception as e:  # noqa
+        if raw is not None:
+            raw.append([])
         return dict(error=type(e).__name__, error_msg=str(e)[:300])
     d = len(case["train"][0][0])
     if rc.pinv and rc.pinv[-1][0].shape == (d, d) and rc.pinv[-1][1].shape == (d, d):
@@ -227,6 +238,206 @@ def run_impl(case):
                                   and all(np.array_equal(a, b) for a, b in zip(te, te0))
                                   and len(tr) == len(tr0) and len(te) == len(te0))
     return out
+
+
+OUT_KEYS = ("lpr", "cpr", "lcpr", "rank_diff")
+
+
+def run_sequence(cases, reuse=False):
+    """Consecutive calls in THIS process.  With reuse=True the same list and ndarray objects
+    are handed to the next call, overwritten in place, whenever the shapes allow it.  After
+    every call the arrays returned by the earlier calls are compared with what they held when
+    they were returned (a result must not be a view of state that later calls rewrite)."""
+    recs, raws, snaps, prev = [], [], [], None
+    for c in cases:
+        tr, te = _arrays(c, c["train"]), _arrays(c, c["test"])
+        if reuse and prev is not None:
+            ptr, pte = prev
+            if [a.shape for a in ptr] == [a.shape for a in tr] and all(a.dtype == b.dtype for a, b in zip(ptr, tr)):
+                for a, b in zip(ptr, tr):
+                    a[...] = b
+                tr = ptr
+            if [a.shape for a in pte] == [a.shape for a in te] and all(a.dtype == b.dtype for a, b in zip(pte, te)):
+                for a, b in zip(pte, te):
+                    a[...] = b
+                te = pte
+        raw = []
+        r = run_impl(c, arrays=(tr, te), raw=raw)
+        for k, (rw, sn) in enumerate(zip(raws, snaps)):
+            if any(not np.array_equal(x, y, equal_nan=True) for x, y in zip(rw, sn)):
+                recs[k]["result_rewritten_by_later_call"] = True
+        recs.append(r)
+        raws.append(raw[0] if raw else [])
+        snaps.append([np.array(x, copy=True) for x in (raw[0] if raw else [])])
+        prev = (tr, te)
+    return recs
+
+
+def _slim(c):
+    return {k: v for k, v in c.items() if k not in ("history",)}
+
+
+class Fresh:
+    """Reference results from a process in which the functions have never been called: a
+    server process imports skmatter and then FORKS one child per request; the child runs the
+    requested call sequence and dies (harness/c20_seq.py).  If the server cannot be used the
+    reference falls back to importlib.reload of the module in this process."""
+
+    def __init__(self):
+        import subprocess
+        import sys
+        self.fallbacks = 0
+        try:
+            self.p = subprocess.Popen([sys.executable, "-m", "harness.c20_seq"], stdin=subprocess.PIPE,
+                                      stdout=subprocess.PIPE, cwd=C.VERIF)
+        except Exception:  # noqa
+            self.p = None
+
+    def run(self, cases, reuse=False):
+        import pickle
+        import struct
+        if self.p is not None:
+            try:
+                data = pickle.dumps(dict(cases=[_slim(c) for c in cases], reuse=reuse))
+                self.p.stdin.write(struct.pack("<Q", len(data)) + data)
+                self.p.stdin.flush()
+                hdr = self.p.stdout.read(8)
+                n = struct.unpack("<Q", hdr)[0]
+                res = pickle.loads(self.p.stdout.read(n))
+                if isinstance(res, list) and len(res) == len(cases):
+                    return res
+            except Exception:  # noqa
+                pass
+            self.close()
+        self.fallbacks += 1
+        import importlib
+        import sys
+        for name in ("skmatter.metrics._prediction_rigidities", "skmatter.metrics"):
+            if name in sys.modules:
+                importlib.reload(sys.modules[name])
+        return run_sequence(cases, reuse=reuse)
+
+    def close(self):
+        if self.p is not None:
+            try:
+                self.p.stdin.close()
+                self.p.wait(timeout=10)
+            except Exception:  # noqa
+                self.p.kill()
+            self.p = None
+
+
+def same_result(r1, r2, cond):
+    """'bit' if the outputs are bit-identical, 'rounding' if they differ by no more than
+    4*eps*(1+cond) entrywise (memory-alignment dependent kernels), else None."""
+    if ("error" in r1) != ("error" in r2):
+        return None
+    if "error" in r1:
+        return "bit" if r1["error"] == r2["error"] else None
+    if r1["rank_diff"] != r2["rank_diff"]:
+        return None
+    level = "bit"
+    for key in ("lpr", "cpr", "lcpr"):
+        u, v = _flat(r1, key), _flat(r2, key)
+        if (u is None) != (v is None):
+            return None
+        if u is None:
+            continue
+        if u.shape != v.shape:
+            return None
+        if np.array_equal(u, v, equal_nan=True):
+            continue
+        fin = np.isfinite(u) & np.isfinite(v)
+        if not np.array_equal(u[~fin], v[~fin], equal_nan=True):
+            return None
+        tol = 4 * EPS * (1 + (cond if math.isfinite(cond) else 1e300))
+        if np.any(np.abs(u[fin] - v[fin]) > tol * np.maximum(np.abs(u[fin]), np.abs(v[fin]))):
+            return None
+        level = "rounding"
+    return level
+
+
+def _regroup(rng, structs):
+    pool = [r for s in structs for r in s]
+    n = len(pool)
+    old = [len(s) for s in structs]
+    for _ in range(20):
+        k = rng.randint(1, n)
+        cuts = sorted(rng.sample(range(1, n), k - 1)) if k > 1 else []
+        b = [0] + cuts + [n]
+        lens = [b[i + 1] - b[i] for i in range(k)]
+        if lens != old:
+            return [pool[b[i]:b[i + 1]] for i in range(k)]
+    return None
+
+
+def gen_sequence(rng, quick):
+    """A base case of the main domain followed by 2-4 calls derived from their predecessor:
+    same alpha and stacked rows under another grouping (train or test), another alpha, other
+    comp_dims, train/test swapped, the other public function, one value changed (with
+    reuse: written into the same ndarray object), back to the first call."""
+    for _ in range(200):
+        c0 = gen_case(rng, quick)
+        if c0["rank_only"] or c0["int_dtype"] or any(len(s) == 0 for s in c0["test"]):
+            continue
+        if len(c0["train"][0][0]) >= 2 and sum(len(s) for s in c0["train"]) >= 2:
+            break
+    else:
+        return None, False
+    seq, labels = [c0], ["base"]
+    d = len(c0["train"][0][0])
+    want = rng.randint(2, 4)
+    variants = ["regroup_train", "regroup_train", "regroup_test", "alpha", "comp_dims", "swap",
+                "kind", "value", "back"]
+    for step in range(40):
+        if len(seq) > want:
+            break
+        c = seq[-1]
+        v = "regroup_train" if (len(seq) == 1 and rng.random() < 0.5) else rng.choice(variants)
+        n = dict(_slim(c))
+        if v == "regroup_train":
+            g = _regroup(rng, c["train"])
+            if g is None:
+                continue
+            n["train"] = g
+        elif v == "regroup_test":
+            g = _regroup(rng, c["test"])
+            if g is None:
+                continue
+            n["test"] = g
+        elif v == "alpha":
+            n["alpha"] = min(1e8, max(1e-8, c["alpha"] * 10.0 ** rng.uniform(-2, 2)))
+            if n["alpha"] == c["alpha"]:
+                continue
+        elif v == "comp_dims":
+            n["comp_dims"] = _composition(rng, d)
+            if n["comp_dims"] == c["comp_dims"]:
+                continue
+        elif v == "swap":
+            n["train"], n["test"] = c["test"], c["train"]
+        elif v == "kind":
+            n["kind"] = "lpr" if c["kind"] == "cpr" else "cpr"
+        elif v == "value":
+            tr = [[list(r) for r in s] for s in c["train"]]
+            si = rng.randrange(len(tr))
+            ri = rng.randrange(len(tr[si]))
+            j = rng.randrange(d)
+            big = max(abs(x) for s in tr for r in s for x in r)
+            tr[si][ri][j] += big * rng.choice([0.5, 1.0, -1.0, 2.0])
+            n["train"] = tr
+        else:
+            if len(seq) < 2:
+                continue
+            n = dict(_slim(seq[0]))
+        if not _blocks_nonzero(n["train"], n["test"], n["comp_dims"]):
+            continue
+        seq.append(n)
+        labels.append(v)
+    if len(seq) < 2:
+        return None, False
+    for c, lab in zip(seq, labels):
+        c["seq_step"] = lab
+    return seq, rng.random() < 0.5
 
 
 def hints(case):
@@ -529,6 +740,43 @@ def run(ctx):
         stats["log10_alpha_hist"][la] = stats["log10_alpha_hist"].get(la, 0) + 1
         lc = int(math.floor(math.log10(h["cond"]))) if math.isfinite(h["cond"]) else 99
         stats["log10_cond_hist"][lc] = stats["log10_cond_hist"].get(lc, 0) + 1
+    # ---- hidden module state, (b): the whole main family once more in shuffled order; every
+    # result must be the one obtained the first time (bit-identical; differences at rounding
+    # level, 4*eps*(1+cond), are counted, not reported: alignment-dependent kernels)
+    fresh = Fresh()
+
+    def _pub(r):
+        return {k: v for k, v in r.items() if k not in ("xprime", "xinv")}
+    stats.update(rerun_bit_identical=0, rerun_rounding=0, rerun_differs=0)
+    order = list(range(len(cases)))
+    ctx.rng.shuffle(order)
+    prev = None
+    for i in order:
+        r2 = run_impl(cases[i])
+        lvl = same_result(recs[i], r2, hs[i]["cond"])
+        if lvl is None:
+            stats["rerun_differs"] += 1
+            if stats["rerun_differs"] <= 5:
+                hist = [_slim(cases[prev])] if prev is not None else []
+                ref = fresh.run([cases[i]])[0]
+                pair = fresh.run(hist + [cases[i]])[-1]
+                reproduced = same_result(pair, ref, hs[i]["cond"]) is None
+                bad = r2 if oracle(cases[i], r2) else recs[i]
+                msg = oracle(cases[i], bad)
+                rep = dict(case=dict(cases[i], history=hist if reproduced else []), observed=_pub(bad),
+                           observed_first_run=_pub(recs[i]), observed_second_run=_pub(r2),
+                           observed_in_fresh_process=_pub(ref), reproduced_with_history=reproduced)
+                if msg:
+                    C.report_violation(ctx, "C20 fails on the implementation: an identical call gives another result "
+                                       "when repeated later in the same process: " + msg, rep,
+                                       found_input=bool(reproduced) or not oracle(cases[i], ref) is None)
+                else:
+                    C.report_violation(ctx, "correspondence broken: an identical call gives another result when repeated "
+                                       "later in the same process (hidden module state; the model is a function)", rep,
+                                       found_input=False)
+        else:
+            stats["rerun_bit_identical" if lvl == "bit" else "rerun_rounding"] += 1
+        prev = i
     # small-alpha family: rank-deficient training covariance with alpha down to
     # 1e-13 x its largest eigenvalue.  The regularised covariance is then still inverted in full
     # (numpy's pinv cuts at ~1e-15), the closed form holds with a conditioning-scaled tolerance,
@@ -543,6 +791,8 @@ def run(ctx):
         if d < 3:
             continue
         c["train"] = c["train"][:max(1, d - 2)]
+        if not any(x != 0 for st in c["train"] for r in st for x in r):
+            continue                 # the truncation left X_train = 0 (sfactor = 0): outside the precondition
         c["rank_only"] = False
         c["small_alpha"] = True
         a1 = 10.0 ** ctx.rng.uniform(-13.0, -10.5)
@@ -573,6 +823,49 @@ def run(ctx):
     # metamorphic family (implementation only)
     for _ in range(150 if ctx.quick else 1500):
         metamorphic(ctx, ctx.rng, ctx.quick, stats)
+    # ---- hidden module state, (a): call sequences in this process.  Every call of a sequence
+    # is compared with the same call made in a process that has never called the functions
+    # (class Fresh) and, further down, with the Coq model like every other case.
+    stats.update(sequences=0, sequence_calls=0, sequence_steps={}, sequences_reusing_objects=0,
+                 fresh_bit_identical=0, fresh_rounding=0, fresh_differs=0)
+    for _ in range(90 if ctx.quick else 700):
+        seq, reuse = gen_sequence(ctx.rng, ctx.quick)
+        if seq is None:
+            continue
+        R = run_sequence(seq, reuse)
+        stats["sequences"] += 1
+        stats["sequences_reusing_objects"] += bool(reuse)
+        for j, (c, r) in enumerate(zip(seq, R)):
+            stats["sequence_calls"] += 1
+            stats["sequence_steps"][c["seq_step"]] = stats["sequence_steps"].get(c["seq_step"], 0) + 1
+            h = hints(c)
+            ref = fresh.run([c])[0]
+            cj = dict(c, history=[_slim(x) for x in seq[:j]], reuse_objects=bool(reuse))
+            if r.get("result_rewritten_by_later_call"):
+                C.report_violation(ctx, "correspondence broken: the arrays returned by a call were rewritten by a later call",
+                                   dict(case=dict(_slim(seq[-1]), history=[_slim(x) for x in seq[:-1]], reuse_objects=bool(reuse)),
+                                        rewritten_call=j), found_input=False)
+            lvl = same_result(r, ref, h["cond"])
+            if lvl is None:
+                stats["fresh_differs"] += 1
+                msg = oracle(c, r)
+                rep = dict(case=cj, observed=_pub(r), observed_in_fresh_process=_pub(ref),
+                           steps=[x["seq_step"] for x in seq[:j + 1]])
+                if msg:
+                    C.report_violation(ctx, "C20 fails on the implementation after %d earlier call(s) in the same process "
+                                       "(steps %s; the same call in a fresh process gives another result): %s"
+                                       % (j, "/".join(x["seq_step"] for x in seq[:j + 1]), msg), rep, found_input=True)
+                else:
+                    C.report_violation(ctx, "correspondence broken: the result of a call depends on earlier calls in the same "
+                                       "process (differs from the same call in a fresh process beyond rounding)", rep,
+                                       found_input=False)
+                continue
+            stats["fresh_bit_identical" if lvl == "bit" else "fresh_rounding"] += 1
+            cases.append(cj)
+            recs.append(r)
+            hs.append(h)
+    stats["fresh_reference_fallbacks_to_reload"] = fresh.fallbacks
+    fresh.close()
     for i, (r, h) in enumerate(zip(recs, hs)):
         if "error" not in r and r.get("xprime") is not None:
             stats["intermediate_observed"] += 1
@@ -650,7 +943,8 @@ def run(ctx):
         rep = dict(case=cases[i], observed=recs[i], cond=hs[i]["cond"], hyp_residual=resid.get(i),
                    eps=eps, rtol=rtol, correspondence="; ".join(which.get(i, ["call raised"])))
         if msg:
-            C.report_violation(ctx, "C20 fails on the implementation: " + msg, rep, found_input=True)
+            after = (" after %d earlier call(s) in the same process" % len(cases[i]["history"])) if cases[i].get("history") else ""
+            C.report_violation(ctx, "C20 fails on the implementation%s: %s" % (after, msg), rep, found_input=True)
         else:
             rep["note"] = "model and implementation disagree but the closed-form oracle accepts the output"
             C.report_violation(ctx, "correspondence rigidity model vs implementation broken: "
@@ -703,7 +997,11 @@ def run(ctx):
 
 def replay(ctx, obj):
     c = obj["case"]
-    r = run_impl(c)
+    if c.get("history"):
+        r = run_sequence(list(c["history"]) + [c], reuse=bool(c.get("reuse_objects")))[-1]
+        print("replay: %d earlier call(s) made first" % len(c["history"]))
+    else:
+        r = run_impl(c)
     msg = oracle(c, r)
     if not msg and "factor" in obj:
         f = obj["factor"]
